@@ -17,7 +17,7 @@ EXPLANATION = (
     "independent transcription of the documented rules (reproc.h:114-158, :204-241, :265-290 and the property). Out-of-range "
     "types are not asserted either way. Further: the validator has no effect outside its options object (no system call, no "
     "global store), and in reproc_start it runs before any pipe, file, allocation or process is created, its failure path "
-    "touching nothing. The summary of parse_options used by the other start-path checks is verified against the same runs.")
+    "touching nothing. The summary of parse_options used by the other start-path checks is verified against the same runs. As built also: no 64-bit option value is narrowed before it is tested (A2n); when the validator does not see argv, the fork/argv rejection is checked on reproc_start itself (A2f).")
 ASSUMPTIONS = [
     "clang 14 parser/CFG and the fact extractor are correct",
     "the oracle (oracle_redirect / oracle_options in sa/rules/c13.py) transcribes the header documentation faithfully",
